@@ -63,6 +63,8 @@ SPEC_NAMES = {
     "yielded",
     "trace_any",
     "trace_all",
+    "map_val",
+    "names_nonempty",
 }
 
 
@@ -353,3 +355,45 @@ class SpecMixin:
 
     def sp_trace_all(self, e, fr):
         return self._trace_q(e, fr, False)
+
+    def sp_map_val(self, e, fr):
+        """map_val(m, k): the value stored under k (meaningful when in_map(m, k)); never forks"""
+        m = self.ev(e.args[0], fr)
+        k = self.ev(e.args[1], fr)
+        kz = z3_of_int(k)
+        self.ctx.add_key(kz)
+        for (kk, vv) in m.cache:
+            if z3.eq(z3.simplify(kk), z3.simplify(kz)) or self.ctx.check(kk != kz) == z3.unsat:
+                return vv
+        for (kk, vv) in m.cache:
+            if self.ctx.check(kk == kz) != z3.unsat:
+                raise ContractError("map_val: key may alias a cached key; compare keys explicitly first")
+        v = m.mk(self, m, kz)
+        m.cache.append((kz, v))
+        return v
+
+    def sp_names_nonempty(self, e, fr):
+        """names_nonempty(headers): every header name has length >= 1.  As an assumption it becomes
+        an element fact of the sequence; as an obligation it is proved for an arbitrary index."""
+        from .sym import Pair
+
+        v = self.ev(e.args[0], fr)
+        mode = getattr(self, "qmode", "prove")
+        seq = ops.to_seq(self.ctx, v) if not (isinstance(v, PList) and v.sym is None) else None
+        out = []
+        if isinstance(v, PList):
+            for it in v.items:
+                out.append(z3.Length(__import__("pyvc.sym", fromlist=["str_to_z3"]).str_to_z3(it[0])) >= 1)
+            seq = v.sym
+        if seq is not None:
+            if mode == "assume":
+                self.ctx.seq_facts.append((seq.e, lambda el: z3.Length(Pair.fst(el)) >= 1))
+            else:
+                j = self.ctx.fresh("_sk_j", z3.IntSort())
+                self.ctx.assume(z3.And(j >= 0, j < z3.Length(seq.e)))
+                el = seq.e[j]
+                for (sq, pred) in self.ctx.seq_facts:
+                    if z3.eq(sq, seq.e):
+                        self.ctx.assume(pred(el))
+                out.append(z3.Implies(z3.Length(seq.e) > 0, z3.Length(Pair.fst(el)) >= 1))
+        return mk_bool(z3.And(*out)) if out else True
